@@ -278,7 +278,15 @@ def run_history(cfg, ops=None, rng=None, nops=8, stats=None):
         # the object must equal a fresh construction from its current parameters
         try:
             f = fresh_from(q)
-            d = compare(snapshot(q), snapshot(f), 1e-12)
+            # an evaluation entry point at the same arguments on both (on the history object it has been called after every earlier step as well): same answer
+            try:
+                P_ = [[0.03, 0.4, 0.2]]
+                with np.errstate(all='ignore'):
+                    ra_ = np.array([float(np.asarray(v_).ravel()[0]) for v_ in q.to_RZ(P_)]); rb_ = np.array([float(np.asarray(v_).ravel()[0]) for v_ in f.to_RZ(P_)])
+                dz = ['to_RZ(%s) = %s on the object but %s on a fresh construction' % (P_[0], list(np.round(ra_, 9)), list(np.round(rb_, 9)))] if (np.all(np.isfinite(rb_)) and np.max(np.abs(ra_ - rb_)) > 1e-10 * max(1.0, float(np.max(np.abs(rb_))))) else []
+            except Exception:
+                dz = []
+            d = dz + compare(snapshot(q), snapshot(f), 1e-12)
         except Exception as e:
             d = ['fresh construction raised %s: %s' % (type(e).__name__, e)]
         bump('predictions')
